@@ -1,6 +1,7 @@
 package main
 
 import (
+	"math/big"
 	"bufio"
 	"bytes"
 	"compress/gzip"
@@ -1583,6 +1584,20 @@ func (e *wireExec) Do(op []string) string {
 		e.smallOps++
 		if err := t.UnmarshalJSON(js); err != nil {
 			return "err"
+		}
+		// time.Unix normalises the nanoseconds into the seconds in int64 arithmetic: when that sum leaves the int64
+		// range (seconds within a few million of the int64 limits: year 292 billion) it wraps; the model's seconds are
+		// unbounded integers and such times are outside the round trip's hypothesis (nano_roundtrip): not compared
+		if ps := strings.Split(s, "+"); len(ps) == 2 {
+			a, ok1 := new(big.Int).SetString(ps[0], 10)
+			b, ok2 := new(big.Int).SetString(ps[1], 10)
+			if ok1 && ok2 {
+				q := new(big.Int).Div(b, big.NewInt(1000000000)) // floor division, as the normalisation does
+				sum := new(big.Int).Add(a, q)
+				if !sum.IsInt64() {
+					return "skip"
+				}
+			}
 		}
 		return fmt.Sprintf("ok %d %d", t.Unix(), t.Nanosecond())
 
